@@ -1200,7 +1200,7 @@ func (e *Exec) pointeeSet(st *State, v Val, sl *types.Slice) string {
 	e.ctx.declare(key, arraySort(sInt, sBool))
 	ht := e.heapTerm(st, e.elemHeap(sl.Elem()))
 	el := e.elemAt(ht, sl.Elem(), v.T, "j")
-	e.ctx.assume(fmt.Sprintf("(forall ((j Int)) (! (=> (and (<= 0 j) (< j %s)) (select %s %s)) :pattern (%s)))", slLen(v.T), key, el, el))
-	e.ctx.assume(fmt.Sprintf("(forall ((r Int)) (! (=> (select %s r) (exists ((j Int)) (and (<= 0 j) (< j %s) (= r %s)))) :pattern ((select %s r))))", key, slLen(v.T), el, key))
+	e.ctx.assumeGlobal(fmt.Sprintf("(forall ((j Int)) (! (=> (and (<= 0 j) (< j %s)) (select %s %s)) :pattern (%s)))", slLen(v.T), key, el, el))
+	e.ctx.assumeGlobal(fmt.Sprintf("(forall ((r Int)) (! (=> (select %s r) (exists ((j Int)) (and (<= 0 j) (< j %s) (= r %s)))) :pattern ((select %s r))))", key, slLen(v.T), el, key))
 	return key
 }
